@@ -115,6 +115,17 @@ def regen_tables():
         if rc != 0:
             return False, "dump-tables failed: " + (out + err)[-2000:]
         changed = replace_if_changed(tmp, os.path.join(COQ, "gen", "Tables_gen.v"))
+        # second dump (samples of small pure functions through hooks: mate-distance correction, table
+        # capacity).  A harness that does not have the command yet is not an error: the file is left alone.
+        tmp2 = os.path.join(COQ, "gen", "Tables2_gen.v.tmp")
+        rc, rep, out, err = harness(["dump-tables2", tmp2], timeout=120)
+        if rc == 0 and os.path.exists(tmp2):
+            changed = replace_if_changed(tmp2, os.path.join(COQ, "gen", "Tables2_gen.v")) or changed
+        else:
+            if os.path.exists(tmp2):
+                os.remove(tmp2)
+            if "unknown command" not in (out + err):
+                return False, "dump-tables2 failed: " + (out + err)[-2000:]
     if changed:
         # everything compiled against the old dump is stale: full rebuild (a failing proof shows up
         # again, with its theorem name, when the property's own obligations are re-checked)
